@@ -84,6 +84,22 @@ def main():
             print("repo suite on changed copy (%.0fs): %s" % (time.time() - t, cmp_out.strip()))
             meta["suite_compare"] = cmp_out.strip()
             meta["suite_ok"] = rc2 == 0
+            if rc2 != 0:
+                # timing-sensitive tests flake when the box is loaded: re-run each failing test file alone, once
+                failing = [l.split("NOT PASSING:")[1].split()[0] for l in cmp_out.splitlines() if "NOT PASSING:" in l]
+                still = []
+                for name in failing:
+                    mod, test = name.rsplit("::", 1)
+                    path = mod.replace(".", "/") + ".py"
+                    rc3, out3 = sh("flock /tmp/seed-suite.lock /venv/bin/python -m pytest -q -p no:cacheprovider --timeout=900 %s" % path,
+                                   cwd=changed + "/cpppo", env=env, timeout=3600)
+                    ok = (" %s " % test) not in out3 and ("::%s " % test) not in out3 and "FAILED %s::%s" % (path, test) not in out3 \
+                        and " passed" in out3
+                    print("  re-run of %s alone: %s" % (path, "passes" if ok else "still failing"))
+                    if not ok:
+                        still.append(name)
+                meta["suite_rerun_still_failing"] = still
+                meta["suite_ok"] = not still
         for c in checks:
             env2 = dict(os.environ)
             env2["VERIF_REPO"] = changed + "/cpppo"
